@@ -43,10 +43,14 @@ var hooked = map[string]map[string]bool{
 	"positionTrackingWriter": {"Write": true},
 }
 
-// guarded: the typestate flag `closed` stands for the whole store state that the mutex guards.
+// guarded: the typestate flag `closed` (or whatever bool field the struct declares, see
+// structFlags) stands for the whole store state that the mutex guards.
 // Before the first statement of a method that mentions <recv>...closed (which, in correct code,
 // comes right after the lock is taken) an access of the store object is recorded: a method that
 // reaches it without the proper lock is unordered with the writers and is reported as a race.
+// A required method that does not mention the flag gets the hook after its first lock call.
+// The access of a `writes` method is a read where the hook sits in a section that runs under a
+// read lock and assigns no field of the receiver (readOnlyUnderRLock).
 type guardCfg struct {
 	obj      func(recv string) string // expression identifying the shared store object
 	writes   map[string]bool          // methods that modify the store (all others read)
@@ -71,10 +75,223 @@ var entryHooks = map[string]map[string]bool{
 	"DeferredCarWriter": {"OnPut": true},
 }
 
+// flagNames is the set of typestate flags of the type whose methods are being hooked: "closed"
+// (also reached through an embedded store, e.g. b.ronly.closed) plus every bool field the
+// struct itself declares (a rename of the flag, e.g. closed -> finalized, is followed).
+var flagNames = map[string]bool{"closed": true}
+
+// structFlags returns the flag names for the guarded type tname as declared in file f.
+func structFlags(f *ast.File, tname string) map[string]bool {
+	names := map[string]bool{"closed": true}
+	for _, d := range f.Decls {
+		gd, ok := d.(*ast.GenDecl)
+		if !ok || gd.Tok != token.TYPE {
+			continue
+		}
+		for _, sp := range gd.Specs {
+			ts, ok := sp.(*ast.TypeSpec)
+			if !ok || ts.Name.Name != tname {
+				continue
+			}
+			st, ok := ts.Type.(*ast.StructType)
+			if !ok {
+				continue
+			}
+			for _, fl := range st.Fields.List {
+				if id, ok := fl.Type.(*ast.Ident); ok && id.Name == "bool" {
+					for _, n := range fl.Names {
+						names[n.Name] = true
+					}
+				}
+			}
+		}
+	}
+	return names
+}
+
+// rootedAt reports whether the selector chain e starts at the identifier recv.
+func rootedAt(e ast.Expr, recv string) bool {
+	for {
+		switch v := e.(type) {
+		case *ast.Ident:
+			return v.Name == recv
+		case *ast.SelectorExpr:
+			e = v.X
+		case *ast.ParenExpr:
+			e = v.X
+		case *ast.StarExpr:
+			e = v.X
+		default:
+			return false
+		}
+	}
+}
+
+// mentionsIdent reports whether n uses one of the named identifiers (field selectors do not count).
+func mentionsIdent(n ast.Node, names map[string]bool) bool {
+	found := false
+	var walk func(x ast.Node) bool
+	walk = func(x ast.Node) bool {
+		if found {
+			return false
+		}
+		switch v := x.(type) {
+		case *ast.SelectorExpr:
+			ast.Inspect(v.X, walk)
+			return false
+		case *ast.KeyValueExpr:
+			ast.Inspect(v.Value, walk)
+			return false
+		case *ast.Ident:
+			if names[v.Name] {
+				found = true
+			}
+		}
+		return !found
+	}
+	ast.Inspect(n, walk)
+	return found
+}
+
+// derivedFromRecv returns the receiver plus the locals of the method that are assigned directly
+// from an expression mentioning the receiver (e.g. rdr := NewOffsetReadSeeker(b.backing, 0)):
+// a goroutine that mentions none of them cannot reach the store. Error values are not references.
+func derivedFromRecv(fd *ast.FuncDecl, recv string) map[string]bool {
+	names := map[string]bool{recv: true}
+	base := map[string]bool{recv: true}
+	add := func(lhs []ast.Expr, rhs []ast.Expr) {
+		m := false
+		for _, e := range rhs {
+			if mentionsIdent(e, base) {
+				m = true
+			}
+		}
+		if !m {
+			return
+		}
+		for _, e := range lhs {
+			if id, ok := e.(*ast.Ident); ok && id.Name != "_" && id.Name != "err" {
+				names[id.Name] = true
+			}
+		}
+	}
+	ast.Inspect(fd.Body, func(x ast.Node) bool {
+		switch v := x.(type) {
+		case *ast.AssignStmt:
+			add(v.Lhs, v.Rhs)
+		case *ast.ValueSpec:
+			var lhs []ast.Expr
+			for _, n := range v.Names {
+				lhs = append(lhs, n)
+			}
+			add(lhs, v.Values)
+		case *ast.RangeStmt:
+			var lhs []ast.Expr
+			if v.Key != nil {
+				lhs = append(lhs, v.Key)
+			}
+			if v.Value != nil {
+				lhs = append(lhs, v.Value)
+			}
+			add(lhs, []ast.Expr{v.X})
+		}
+		return true
+	})
+	return names
+}
+
+// lockCall returns "Lock", "RLock", "Unlock" or "RUnlock" when e is a call x.y.Lock() etc.
+func lockCall(e ast.Expr) string {
+	c, ok := e.(*ast.CallExpr)
+	if !ok || len(c.Args) != 0 {
+		return ""
+	}
+	se, ok := c.Fun.(*ast.SelectorExpr)
+	if !ok {
+		return ""
+	}
+	switch se.Sel.Name {
+	case "Lock", "RLock", "Unlock", "RUnlock":
+		return se.Sel.Name
+	}
+	return ""
+}
+
+// readOnlyUnderRLock reports whether a hook at position at sits in a section of the method that
+// runs under a READ lock and does not assign to a field of the receiver: the section cannot
+// modify the store, so its access is a read whatever the method does later under the write lock
+// (e.g. a Put that first looks up the key under RLock and re-checks under Lock). The lock calls
+// are followed in source order (deferred ones and function literals are skipped); the section
+// ends at the next Lock() or at the end of the method.
+func readOnlyUnderRLock(fd *ast.FuncDecl, recv string, at token.Pos) bool {
+	type ev struct {
+		pos  token.Pos
+		kind string
+	}
+	var evs []ev
+	var assigns []token.Pos
+	ast.Inspect(fd.Body, func(x ast.Node) bool {
+		switch v := x.(type) {
+		case *ast.FuncLit, *ast.DeferStmt:
+			return false
+		case *ast.CallExpr:
+			if k := lockCall(v); k != "" {
+				evs = append(evs, ev{v.Pos(), k})
+			}
+		case *ast.AssignStmt:
+			if v.Tok != token.DEFINE {
+				for _, l := range v.Lhs {
+					if _, isSel := l.(*ast.SelectorExpr); isSel && rootedAt(l, recv) {
+						assigns = append(assigns, v.Pos())
+					}
+					if ix, isIx := l.(*ast.IndexExpr); isIx && rootedAt(ix.X, recv) {
+						assigns = append(assigns, v.Pos())
+					}
+				}
+			}
+		case *ast.IncDecStmt:
+			if rootedAt(v.X, recv) {
+				assigns = append(assigns, v.Pos())
+			}
+		}
+		return true
+	})
+	state, from := "", token.NoPos
+	for _, e := range evs {
+		if e.pos >= at {
+			break
+		}
+		switch e.kind {
+		case "RLock":
+			state, from = "R", e.pos
+		case "Lock":
+			state = "W"
+		default:
+			state = ""
+		}
+	}
+	if state != "R" {
+		return false
+	}
+	end := fd.Body.End()
+	for _, e := range evs {
+		if e.pos >= at && e.kind == "Lock" {
+			end = e.pos
+			break
+		}
+	}
+	for _, a := range assigns {
+		if a > from && a < end {
+			return false
+		}
+	}
+	return true
+}
+
 func mentionsClosed(n ast.Node, recv string) bool {
 	found := false
 	ast.Inspect(n, func(x ast.Node) bool {
-		if se, ok := x.(*ast.SelectorExpr); ok && se.Sel.Name == "closed" {
+		if se, ok := x.(*ast.SelectorExpr); ok && flagNames[se.Sel.Name] {
 			// rooted at the receiver?
 			e := se.X
 			for {
@@ -133,6 +350,40 @@ func (r *rewriter) stmt(s ast.Stmt) ast.Stmt {
 		wrap := &ast.FuncLit{Type: &ast.FuncType{Params: &ast.FieldList{}}, Body: &ast.BlockStmt{List: []ast.Stmt{&ast.ExprStmt{X: v.Call}}}}
 		return &ast.ExprStmt{X: call(sel("vsync", "Go"), wrap)}
 	case *ast.SelectStmt:
+		if len(v.Body.List) == 2 {
+			// the non-blocking poll  select { case <-done: A  default: B }
+			var done ast.Expr
+			var doneBody, defBody []ast.Stmt
+			hasDefault, other := false, false
+			for _, c := range v.Body.List {
+				cc := c.(*ast.CommClause)
+				if cc.Comm == nil {
+					hasDefault, defBody = true, cc.Body
+					continue
+				}
+				es, ok := cc.Comm.(*ast.ExprStmt)
+				if !ok {
+					other = true
+					continue
+				}
+				u, ok := es.X.(*ast.UnaryExpr)
+				if !ok || u.Op != token.ARROW {
+					other = true
+					continue
+				}
+				done, doneBody = u.X, cc.Body
+			}
+			if hasDefault && done != nil && !other {
+				r.changed = true
+				return &ast.SwitchStmt{
+					Tag: call(sel("vsync", "PollDone"), done),
+					Body: &ast.BlockStmt{List: []ast.Stmt{
+						&ast.CaseClause{List: []ast.Expr{ast.NewIdent("true")}, Body: doneBody},
+						&ast.CaseClause{List: []ast.Expr{ast.NewIdent("false")}, Body: defBody},
+					}},
+				}
+			}
+		}
 		if len(v.Body.List) != 2 {
 			die("%s: select with %d clauses is not supported", r.pos(v), len(v.Body.List))
 		}
@@ -299,12 +550,19 @@ func main() {
 				continue
 			}
 			recv := fd.Recv.List[0].Names[0].Name
+			flagNames = structFlags(f, id.Name)
 			w := "false"
 			if cfg.writes[fd.Name.Name] {
 				w = "true"
 			}
-			mk := func(site string) ast.Stmt {
-				return &ast.ExprStmt{X: call(sel("vsync", "Access"), parseExpr(cfg.obj(recv)), ast.NewIdent(w), &ast.BasicLit{Kind: token.STRING, Value: strconv.Quote(site)})}
+			// at = position of the statement the hook is placed in front of (or the end of the lock
+			// statement it follows): under a read lock, in a section that assigns no field, it is a read
+			mk := func(site string, at token.Pos) ast.Stmt {
+				kind := w
+				if kind == "true" && readOnlyUnderRLock(fd, recv, at) {
+					kind = "false"
+				}
+				return &ast.ExprStmt{X: call(sel("vsync", "Access"), parseExpr(cfg.obj(recv)), ast.NewIdent(kind), &ast.BasicLit{Kind: token.STRING, Value: strconv.Quote(site)})}
 			}
 			// Insert before the first statement that mentions the flag on every path: a compound
 			// statement whose header does not mention it is descended into (the lock may be taken
@@ -339,25 +597,74 @@ func main() {
 					if descend {
 						continue
 					}
-					*list = append((*list)[:i], append([]ast.Stmt{mk(id.Name + "." + fd.Name.Name)}, (*list)[i:]...)...)
+					*list = append((*list)[:i], append([]ast.Stmt{mk(id.Name+"."+fd.Name.Name, stmt.Pos())}, (*list)[i:]...)...)
 					hookedMethods[id.Name+"."+fd.Name.Name] = true
 					r.changed = true
 					return
 				}
+			}
+			// Fallback for a method that never mentions the flag itself (the check moved into a
+			// helper, or the method stopped checking): the hook follows the first Lock()/RLock()
+			// statement of the method. Without any lock call the refusal below stays.
+			var hookAfterLock func(list *[]ast.Stmt) bool
+			hookAfterLock = func(list *[]ast.Stmt) bool {
+				for i := 0; i < len(*list); i++ {
+					switch v := (*list)[i].(type) {
+					case *ast.ExprStmt:
+						if k := lockCall(v.X); k == "Lock" || k == "RLock" {
+							rest := append([]ast.Stmt{mk(id.Name+"."+fd.Name.Name, v.End())}, (*list)[i+1:]...)
+							*list = append((*list)[:i+1:i+1], rest...)
+							return true
+						}
+					case *ast.IfStmt:
+						if hookAfterLock(&v.Body.List) {
+							return true
+						}
+						if eb, ok := v.Else.(*ast.BlockStmt); ok && hookAfterLock(&eb.List) {
+							return true
+						}
+					case *ast.BlockStmt:
+						if hookAfterLock(&v.List) {
+							return true
+						}
+					case *ast.ForStmt:
+						if hookAfterLock(&v.Body.List) {
+							return true
+						}
+					case *ast.RangeStmt:
+						if hookAfterLock(&v.Body.List) {
+							return true
+						}
+					}
+				}
+				return false
 			}
 			if isWrite, ok := entryHooks[id.Name][fd.Name.Name]; ok {
 				w = "false"
 				if isWrite {
 					w = "true"
 				}
-				fd.Body.List = append([]ast.Stmt{mk(id.Name + "." + fd.Name.Name)}, fd.Body.List...)
+				fd.Body.List = append([]ast.Stmt{mk(id.Name+"."+fd.Name.Name, token.NoPos)}, fd.Body.List...)
 				hookedMethods[id.Name+"."+fd.Name.Name] = true
 				r.changed = true
 			} else {
 				hookList(&fd.Body.List)
+				if !hookedMethods[id.Name+"."+fd.Name.Name] {
+					required := false
+					for _, m := range cfg.required {
+						if m == fd.Name.Name {
+							required = true
+						}
+					}
+					if required && hookAfterLock(&fd.Body.List) {
+						hookedMethods[id.Name+"."+fd.Name.Name] = true
+						r.changed = true
+					}
+				}
 			}
 			if cfg.iterInGo {
 				// inside goroutines started by this method: a read of the store before every send
+				derived := derivedFromRecv(fd, recv)
 				ast.Inspect(fd.Body, func(n ast.Node) bool {
 					ce, ok := n.(*ast.CallExpr)
 					if !ok {
@@ -369,6 +676,11 @@ func main() {
 					}
 					fl, ok := ce.Args[0].(*ast.FuncLit)
 					if !ok {
+						return true
+					}
+					if !mentionsIdent(fl.Body, derived) {
+						// the goroutine only hands out values computed before it started: it
+						// mentions neither the receiver nor a local derived from it
 						return true
 					}
 					ast.Inspect(fl.Body, func(m ast.Node) bool {
@@ -416,7 +728,7 @@ func main() {
 			}
 			for _, m := range cfg.required {
 				if !hookedMethods[tname+"."+m] {
-					die("%s: cannot place the store-state hook in %s.%s (no statement mentions the closed flag)", rel, tname, m)
+					die("%s: cannot place the store-state hook in %s.%s (no statement mentions the closed flag and the method takes no lock)", rel, tname, m)
 				}
 			}
 		}
